@@ -21,6 +21,9 @@ EXHAUSTIVE = False
 
 
 def run(rep):
+    if rep.tier == "thorough":
+        from .. import apalache
+        apalache.shape_lemmas(rep)
     fnd = Findings()
     res, table = dwtmodel.run_ops(rep, rep.tier, ["AnalysisOK", "AnalysisDevExact"])
     calls = dwtmodel.run_calls(rep, rep.tier, ["FwdShapesOK", "FwdRaiseOK", "FwdChain"], {"fwd"})
